@@ -485,7 +485,7 @@ theorem gen_dec_crypto_eq (bs : Bytes) :
   | ok off r =>
     simp only [Res.bind]
     cases pVarint r with
-    | ok len r2 => simp only [Res.bind]; split <;> rfl
+    | ok len r2 => simp only []; split <;> rfl
     | err _ => rfl
     | panic _ => rfl
   | err _ => rfl
